@@ -32,7 +32,13 @@ func Attribute(m Mismatch, running string) string {
 		}
 		return "C09"
 	case "control-rejected":
-		return "harness"
+		// the block without the defect is acceptable by the specification and the real code refuses it: an unexpected
+		// rejection like any other (on the unchanged tree no control is ever refused)
+		switch running {
+		case "C03", "C07", "C08":
+			return running
+		}
+		return "C08"
 	case "post":
 		if tag == "revert" {
 			return "C06"
